@@ -276,7 +276,7 @@ func propC12(c c12Case) (ev.Outcome, error) {
 
 func runC12(t *testing.T, driver string) {
 	col := ev.Get("C12")
-	ev.Check(t, col, ev.Scale(500, 2000), genC12(driver, col), propC12)
+	ev.Check(t, col, ev.Scale(500, 8000), genC12(driver, col), propC12)
 }
 
 func TestC12_npm_relax(t *testing.T)      { runC12(t, drvNpmRelax) }
